@@ -376,19 +376,23 @@ static void HandleClean(const json& in) {
 
 // ---------------------------------------------------------------- small pure functions
 static void HandleShellEscape(const json& in) {
-  // evaluate `$in`, `$out`, `$in_newline` for an edge with the given (hex) input/output names
-  State state;
-  Rule* rule = new Rule("r");
-  EvalString cmd; cmd.AddText("argdump "); cmd.AddSpecial("in"); cmd.AddText(" -- "); cmd.AddSpecial("out");
-  rule->AddBinding("command", cmd);
-  EvalString rc; rc.AddSpecial("in_newline");
-  rule->AddBinding("rspfile_content", rc);
-  state.bindings_.AddRule(std::unique_ptr<Rule>(rule));
-  Edge* e = state.AddEdge(rule);
-  string err;
-  for (auto& i : in["ins"]) state.AddIn(e, FromHex(i), 0);
-  for (auto& o : in["outs"]) state.AddOut(e, FromHex(o), 0, &err);
-  EmitResult({{"command", ToHex(e->EvaluateCommand())}, {"in_newline", ToHex(e->GetBinding("rspfile_content"))}});
+  // for each case: evaluate `argdump $in -- $out` and `$in_newline` for an edge with the given (hex) input/output names
+  json results = json::array();
+  for (auto& c : in["cases"]) {
+    State state;
+    Rule* rule = new Rule("r");
+    EvalString cmd; cmd.AddText("argdump "); cmd.AddSpecial("in"); cmd.AddText(" -- "); cmd.AddSpecial("out");
+    rule->AddBinding("command", cmd);
+    EvalString rc; rc.AddSpecial("in_newline");
+    rule->AddBinding("rspfile_content", rc);
+    state.bindings_.AddRule(std::unique_ptr<Rule>(rule));
+    Edge* e = state.AddEdge(rule);
+    string err;
+    for (auto& i : c["ins"]) state.AddIn(e, FromHex(i), 0);
+    for (auto& o : c["outs"]) state.AddOut(e, FromHex(o), 0, &err);
+    results.push_back({{"command", ToHex(e->EvaluateCommand())}, {"in_newline", ToHex(e->GetBinding("rspfile_content"))}});
+  }
+  EmitResult({{"results", results}});
 }
 
 static void HandleDepfile(const json& in) {
